@@ -688,19 +688,23 @@ func (tree *MutableTree) GetVersioned(key []byte, version int64) ([]byte, error)
 			}
 
 			if isFastCacheEnabled {
-				fastNode, _ := tree.ndb.GetFastNode(key)
-				if fastNode == nil && version == tree.ndb.getCachedLatestVersion() {
-					return nil, nil
-				}
+				// if the fast node cannot be read, fall back to the tree below
+				fastNode, err := tree.ndb.GetFastNode(key)
+				if err == nil {
+					if fastNode == nil && version == tree.ndb.getCachedLatestVersion() {
+						return nil, nil
+					}
 
-				if fastNode != nil && fastNode.GetVersionLastUpdatedAt() <= version {
-					return fastNode.GetValue(), nil
+					if fastNode != nil && fastNode.GetVersionLastUpdatedAt() <= version {
+						return fastNode.GetValue(), nil
+					}
 				}
 			}
 		}
 		t, err := tree.GetImmutable(version)
 		if err != nil {
-			return nil, nil
+			// the version exists, so this is a storage failure, not an absent key
+			return nil, err
 		}
 		value, err := t.Get(key)
 		if err != nil {
